@@ -8,6 +8,7 @@ import DyntplV.DriverC20
 import DyntplV.DriverC04
 import DyntplV.DriverC12
 import DyntplV.DriverC06
+import DyntplV.DriverAst
 /-!
   Line-protocol driver: one request per line on stdin, one answer per line on stdout.
   Runs the *same* definitions the theorems are about.
@@ -87,6 +88,9 @@ def answer (line : String) : String :=
   | some a => a
   | none =>
   match DriverC20.answer toks with
+  | some a => a
+  | none =>
+  match DriverAst.answer toks with
   | some a => a
   | none =>
   match toks with
